@@ -174,8 +174,12 @@ JudgeLikely(e, o) ==
     ELSE Good(o)
 
 JudgeDir(e, o) ==
-    IF e.dir \in AllowedDir(StrOf(e.l), OptStr(e.s), OptStr(e.r), e.likely, <<>>) THEN Good(o)
-    ELSE Bad("direction", <<"C14">>, o)
+    (* a CLDR layout locale must get the CLDR answer (with likely subtags; without them, unless it is script-less and its  *)
+    (* language has more than one direction): AllowedDir knows, given the CLDR entry                                     *)
+    IF e.dir \notin AllowedDir(StrOf(e.l), OptStr(e.s), OptStr(e.r), e.likely, CldrOf(StrOf(e.l), OptStr(e.s), OptStr(e.r)))
+        THEN Bad("direction", <<"C14">>, o)
+    ELSE IF "dir2" \in DOMAIN e /\ e.dir2 # e.dir THEN Bad("direction-second-call-differs", <<"C14">>, o)
+    ELSE Good(o)
 
 (* a pair the driver believes equivalent (C09).  The SPECIFICATION decides   *)
 (* whether the pair is one C09 speaks about, and only then is the           *)
